@@ -73,4 +73,9 @@ type CompactionTask struct {
 
 	// Output file path template
 	OutputPathTemplate string
+
+	// KeepTombstones is set when a level below the target level holds a file
+	// that shares keys with the inputs: a deletion marker dropped by this
+	// compaction would bring that file's older version of the key back
+	KeepTombstones bool
 }
